@@ -98,6 +98,12 @@ impl Parser for HeadParser {
         if self.pos + size > 252 {
             return Err(format_error!("out of block"));
         }
+        if self.pos + size <= 48 {
+            // borrowed from the (per-element tracked) head: keeps concrete bytes concrete
+            let s = &self.head[self.pos..self.pos + size];
+            self.pos += size;
+            return Ok(Cow::Borrowed(s));
+        }
         let mut v = Vec::with_capacity(size);
         let mut i = 0;
         while i < size {
